@@ -1,10 +1,10 @@
 SPECIFICATION Spec
 CONSTANTS
-  Addr <- AddrRestart
-  Gaps <- GapsRestartF
+  Addr <- Addr2
+  Gaps <- GapsFixed2
   T = 10
-  D = 0
-  MaxEvents = 4
+  D = 1
+  MaxEvents = 2
   MaxFails = 1
   Backoff = TRUE
   Closed = TRUE
